@@ -140,6 +140,21 @@ def gen_cases(ctx):
                     for tail in ((('221 bye',), (E,)) if not quick else (('221 bye',),)):
                         mk = 'crlf' if quick else rng.choice(list(MSGS))
                         add(mkcase(session(n, ext, {pos: its}, tail=tail), rcpts_for(n), msgkind=mk, has8=has8, conns=1), 'one-fault')
+    # thorough: exhaustive pairs of faults for two recipients
+    if not quick:
+        n = 2
+        positions = ['greet', 'ehlo', 'mail', ('rcpt', 0), ('rcpt', 1), 'data', 'dot']
+        nominal = {'greet': 220, 'ehlo': 250, 'mail': 250, 'data': 354, 'dot': 250}
+        for ext in ('none', 'pipe'):
+            for i, p1 in enumerate(positions):
+                for p2 in positions[i + 1:]:
+                    for k1, i1 in kinds(nominal.get(p1, 250)).items():
+                        if k1 == 'enomem':
+                            continue
+                        for k2, i2 in kinds(nominal.get(p2, 250)).items():
+                            if k2 == 'enomem':
+                                continue
+                            add(mkcase(session(n, ext, {p1: i1, p2: i2}), rcpts_for(n)), 'two-faults')
     # EHLO refused -> HELO; every kind as HELO reply
     for kname, its in kinds(250).items():
         for n in (1, 2):
@@ -167,7 +182,7 @@ def gen_cases(ctx):
     add(mkcase([], rcpts_for(1), conns=0), 'no-connection')
     add(mkcase(session(1, 'none'), [], conns=1), 'no-recipient')
     # (b) random: several faults, up to 9 recipients (and long lists for the batching rule), all extension sets
-    N = 1500 if quick else 40000
+    N = 1500 if quick else 250000
     allkinds = list(kinds(250).items())
     for _ in range(N):
         r = rng.random()
@@ -181,7 +196,7 @@ def gen_cases(ctx):
         for _k in range(rng.choice([0, 1, 1, 2, 2, 3, 4])):
             pos = rng.choice(positions[2:]) if rng.random() < 0.8 else rng.choice(positions)
             nominal = {'greet': 220, 'ehlo': 250, 'mail': 250, 'data': 354, 'dot': 250}.get(pos, 250)
-            kn, its = rng.choice(list(kinds(nominal).items()))
+            kn, its = rng.choice([k for k in kinds(nominal).items() if k[0] != 'enomem'])   # see gen_enomem_drain
             if pos == 'ehlo' and rng.random() < 0.5:
                 continue
             repl[pos] = its
@@ -193,7 +208,7 @@ def gen_cases(ctx):
         add(mkcase(sc, rcpts_for(n, rng, [0, 0, 1, 20, 60]), msgkind=mk, has8=has8, conns=rng.choice([1, 1, 1, 2, 3])), 'random-faults')
     # (c) malformed / random lines anywhere
     alpha = [b'2', b'5', b'0', b'4', b'3', b' ', b'-', b'x', b'\x00', b'\xff', b'K', b'Z', b'\t']
-    for _ in range(400 if quick else 8000):
+    for _ in range(400 if quick else 60000):
         n = rng.randrange(1, 4)
         sc = []
         for _i in range(rng.randrange(0, 12)):
@@ -229,6 +244,20 @@ def gen_long_addresses(ctx):
             r = [(b'r' + b'x' * L + b'@b.example')]
             cases.append(mkcase(session(1, ext), r))
             cases.append(mkcase(session(1, ext), rcpts_for(1), sender=b's' + b'y' * L + b'@a.example'))
+    return cases
+
+
+def gen_enomem_drain(ctx):
+    """read() failing with ENOMEM while the replies to pipelined recipients are drained after a rejected
+    MAIL FROM: netget() ends the program on ENOMEM whatever `terminate` says, so a second message report
+    is written.  Outside the theorems' quantifier (hypothesis NoEnomem; not a behaviour of the server):
+    compared with the model only."""
+    cases = []
+    for n in (1, 2, 5):
+        for mail in (['550 no'], ['451 later'], ['550-a', '550 b']):
+            for k in range(n):
+                sc = session(n, 'pipe', {'mail': mail, ('rcpt', k): [('R', 12)]})
+                cases.append(mkcase(sc, rcpts_for(n)))
     return cases
 
 
@@ -286,13 +315,15 @@ def run(ctx):
         vlib.differential(ctx, 'qremote', h, cases, hline=hline, pred=pred, corr_name=CORR, known_class=known_class,
                           nontrivial=lambda c, o: 'status=-' not in o and o.startswith('exit='))
         vlib.differential(ctx, 'qremote-long-addresses', h, gen_long_addresses(ctx), hline=hline, corr_name=CORR)
+        vlib.differential(ctx, 'qremote-enomem-in-drain', h, gen_enomem_drain(ctx), hline=hline, corr_name=CORR)
     if not ctx.quick():
-        vlib.leanchecker(ctx, ['QsmtpModel.Props.C04', 'QsmtpModel.Lemmas.QrProto'])
+        vlib.leanchecker(ctx, ['QsmtpModel.Props.C04', 'QsmtpModel.Lemmas.QrProto', 'QsmtpModel.Lemmas.QrEnvelope'])
     return vlib.finish(ctx, assumptions=[
         'the server is a script at reader-result level: one item (line | errno | closed | time-out) per net_read() call; lib/netio.c turns bytes into these results (property C05)',
         'writes to the socket and to the status descriptor succeed (a failing write to the socket is not scripted)',
         'tryconn() and tls_init() are oracles: tryconn succeeds a given number of times, tls_init returns a scripted value and has written one Z report when it is negative (contract in starttlsr.c); after a successful tls_init the same script continues (TLS itself is property C18)',
         'the transfer of the message body between the 354 reply and the final dot is abstracted to one marker; need_recode() and lastlf are inputs of the model, observed from the implementation',
+        'read() never fails with ENOMEM (theorem hypothesis NoEnomem): netget() ends the program on ENOMEM even while draining, which writes a second message report; compared with the model only',
         'envelope clause: sender and recipients short enough for one 512 octet command line (net_writen folds longer ones; compared with the model only)',
         'glibc strerror() texts for the scripted errno values'])
 
